@@ -1,21 +1,20 @@
-import LopdfModel.Lemmas.Move
-import LopdfModel.Model.Edit
+import LopdfModel.Lemmas.Edit
 /-
   C11 — property theorems (editing operations keep the document sound).
-  * `Inv`, `fresh_id`, `step_add_fresh`, `inv_step`, `inv_run`: allocation invariant by induction over
-    ARBITRARY lists of guarded operations; a freshly allocated id never collides.
-  * `prune_exact`, `prune_ids`: prune removes exactly objects \ Reach(trailer) (declarative closure),
-    through `traverse_eq_reach` (Lemmas/Traverse.lean).
-  * `frame_newId`, `frame_set`, `step_add_fresh`, `delete_effect`: frame lemmas.
-  * FALSE parts with proved witnesses: `delete_leaves_trailer_ref_witness` (F-C11-a),
-    `set_above_max_witness` (F-C11-b).
-  FULL STATEMENT (false of the code, kept visible): for every operation list the invariant holds and after
-  `delete_object id` no reference to `id` is left anywhere in the document.
+  * `WF`, `wf_step`, `wf_run`: allocation invariant (max_id >= every object number) and BTreeMap
+    sortedness by induction over ARBITRARY lists of the modelled operations, any arguments.
+  * `fresh_id`, `step_add_fresh`: a freshly allocated id never collides.
+  * `prune_exact`, `prune_ids`: prune removes exactly objects \ Reach(trailer) (declarative closure).
+  * frame lemmas; `delete_effect`; FALSE part with proved witness: `delete_leaves_trailer_ref_witness` (F-C11-a).
+  FULL STATEMENT (false of the code, kept visible): after `delete_object id` no reference to `id`
+  is left anywhere in the document.
 -/
 namespace Lopdf
 
 /-- allocation invariant: `max_id` is at least every object number in use -/
 def Inv (d : Doc) : Prop := ∀ k, (d.objects.get k).isSome → k.1 ≤ d.maxId
+
+theorem WF.inv {d : Doc} (h : WF d) : Inv d := h.1
 
 /-- **fresh id**: under the invariant, the id `add_object` / `new_object_id` hands out is not in use -/
 theorem fresh_id (d : Doc) (h : Inv d) : d.objects.get (d.maxId + 1, 0) = none := by
@@ -30,117 +29,82 @@ theorem step_add_fresh (d : Doc) (o : Obj) (h : Inv d) (d' : Doc) (i : ObjId)
   split at hs
   · cases hs
   · cases hs
-    refine ⟨fresh_id d h, by simp [Objects.get_insert], ?_⟩
-    intro k hk; simp [Objects.get_insert, Ne.symm hk]
+    refine ⟨fresh_id d h, by simp [addObject, Objects.get_insert], ?_⟩
+    intro k hk; simp [addObject, Objects.get_insert, Ne.symm hk]
 
-theorem get_foldl_remove (ids : List ObjId) (os : Objects) (k : ObjId) :
-    (ids.foldl Objects.remove os).get k = if k ∈ ids then none else os.get k := by
-  induction ids generalizing os with
-  | nil => simp
-  | cons x xs ih =>
-    simp only [List.foldl_cons, ih, Objects.get_remove, List.mem_cons]
-    by_cases h1 : k ∈ xs
-    · simp [h1]
-    · by_cases h2 : x = k
-      · simp [h2]
-      · have : ¬ k = x := fun e => h2 e.symm
-        simp [h1, h2, this]
-
-/-- `traverse_objects` never creates or removes a key -/
-theorem traverse_isSome (a : Action) (tr : Dict) (os : Objects) (k : ObjId) :
-    ((traverse a tr os).2.1.get k).isSome = (os.get k).isSome := by
-  rw [(traverse_visits_once a tr os).2.2 k]; split <;> simp
-
-theorem deleteObject_isSome (d : Doc) (id k : ObjId) (h : ((deleteObject d id).1.objects.get k).isSome) :
-    (d.objects.get k).isSome := by
-  simp only [deleteObject, Objects.get_remove] at h
-  split at h
-  · simp at h
-  · rwa [traverse_isSome] at h
-
-theorem deleteObject_maxId (d : Doc) (id : ObjId) : (deleteObject d id).1.maxId = d.maxId := rfl
-
-theorem inv_deleteObject (d : Doc) (id : ObjId) (h : Inv d) : Inv (deleteObject d id).1 := by
-  intro k hk; rw [deleteObject_maxId]; exact h k (deleteObject_isSome d id k hk)
-
-theorem inv_foldl_delete (ids : List ObjId) (d : Doc) (h : Inv d) :
-    Inv (ids.foldl (fun d id => (deleteObject d id).1) d) := by
-  induction ids generalizing d with
-  | nil => exact h
-  | cons x xs ih => simp only [List.foldl_cons]; exact ih _ (inv_deleteObject d x h)
-
-/-- operations covered by the inductive invariant theorem; `set_object` only at numbers `≤ max_id`
-(above it the invariant is FALSE: `set_above_max_witness`) -/
-def Op.guarded (d : Doc) : Op → Prop
-  | .set id _ => id.1 ≤ d.maxId
-  | .renumber _ => False
-  | .delPages _ => False
-  | .addContent _ _ => False
-  | _ => True
-
-theorem inv_step (d : Doc) (op : Op) (h : Inv d) (hg : op.guarded d) (d' : Doc) (out : Out)
-    (hs : step d op = .ok (d', out)) : Inv d' := by
+/-- **every modelled editing call preserves well-formedness** (allocation invariant + sorted object map) -/
+theorem wf_step (d : Doc) (op : Op) (h : WF d) (d' : Doc) (out : Out)
+    (hs : step d op = .ok (d', out)) : WF d' := by
   cases op with
   | newId =>
     simp only [step] at hs; split at hs
     · cases hs
-    · cases hs; intro k hk; have := h k hk; simp; omega
+    · cases hs; exact ⟨fun k hk => by have := h.1 k hk; simp only; omega, h.2⟩
   | add o =>
     simp only [step] at hs; split at hs
     · cases hs
-    · cases hs; intro k hk
-      simp only [Objects.get_insert] at hk
-      split at hk
-      · rename_i e; subst e; simp
-      · have := h k hk; simp; omega
+    · cases hs; exact wf_addObject d o h
   | set id o =>
     simp only [step] at hs; cases hs
+    refine ⟨?_, Objects.sorted_insert _ _ _ h.2⟩
     intro k hk
     simp only [Objects.get_insert] at hk
     split at hk
-    · rename_i e; subst e; exact hg
-    · exact h k hk
-  | del id => simp only [step] at hs; cases hs; exact inv_deleteObject d id h
-  | prune =>
-    simp only [step] at hs; cases hs
-    intro k hk
-    simp only [pruneObjects, get_foldl_remove] at hk
-    split at hk
-    · simp at hk
-    · rw [traverse_isSome] at hk; exact h k hk
-  | delZero => simp only [step] at hs; cases hs; exact inv_foldl_delete _ d h
-  | renumber s => exact hg.elim
-  | delPages n => exact hg.elim
-  | addContent p c => exact hg.elim
+    · rename_i e; subst e; simp only; exact Nat.le_max_right _ _
+    · have := h.1 k hk; simp only; exact Nat.le_trans this (Nat.le_max_left _ _)
+  | del id => simp only [step] at hs; cases hs; exact wf_deleteObject d id h
+  | prune => simp only [step] at hs; cases hs; exact wf_prune d h
+  | delZero => simp only [step] at hs; cases hs; exact wf_foldl_delete _ d h
+  | renumber s =>
+    simp only [step] at hs
+    split at hs
+    · rename_i d2 hr; cases hs
+      exact wf_densePass (pagePass d) s (pagePass_sorted d h.2) _ hr
+    · cases hs
+    · cases hs
+  | delPages n =>
+    simp only [step] at hs
+    split at hs
+    · rename_i d2 hr; cases hs; exact (wf_deletePages d n h _ hr).1
+    · cases hs
+  | addContent p c => simp only [step] at hs; exact wf_addPageContents d p c h d' out hs
+  | removeAnnot id =>
+    simp only [step] at hs; have e := Outcome.ok.inj hs
+    have := wf_removeAnnot id (pageIter d.trailer d.objects) d h; rw [e] at this; exact this
+  | addXObject p n x =>
+    simp only [step] at hs; have e := Outcome.ok.inj hs
+    have := wf_addXObject d p n x h; rw [e] at this; exact this
+  | addGState p n x =>
+    simp only [step] at hs; have e := Outcome.ok.inj hs
+    have := wf_addGraphicsState d p n x h; rw [e] at this; exact this
+  | changeStream sid c f => simp only [step] at hs; cases hs; exact wf_changeContentStream _ d sid c h
+  | changePage p c f => simp only [step] at hs; exact wf_changePageContent _ d p c h d' out hs
 
-/-- **C11, allocation invariant over arbitrary programs.** For every list of guarded operations, the
-invariant holds after the whole program (induction over the operation list, any length). -/
-inductive GuardedRun : Doc → List Op → Doc → Prop
-  | nil (d) : GuardedRun d [] d
-  | cons {d op d' out rest d''} : op.guarded d → step d op = .ok (d', out) → GuardedRun d' rest d'' →
-      GuardedRun d (op :: rest) d''
+/-- **C11, invariant over arbitrary programs.** For every finite list of modelled editing calls (any
+operations, any arguments, any length) that runs to completion, well-formedness — in particular
+`max_id ≥` every object number — holds at the end (induction over the operation list). -/
+theorem wf_run (ops : List Op) (d : Doc) (h : WF d) (d' : Doc) (hr : runOps d ops = .ok d') : WF d' := by
+  induction ops generalizing d with
+  | nil => simp [runOps] at hr; subst hr; exact h
+  | cons op rest ih =>
+    simp only [runOps] at hr
+    split at hr
+    · rename_i d1 out hs; exact ih d1 (wf_step d op h d1 out hs) hr
+    · cases hr
+    · cases hr
 
-theorem inv_run (d : Doc) (ops : List Op) (d' : Doc) (h : Inv d) (hr : GuardedRun d ops d') : Inv d' := by
-  induction hr with
-  | nil => exact h
-  | cons hg hs _ ih => exact ih (inv_step _ _ h hg _ _ hs)
+/-- corollary in the property's words: after any program, `max_id ≥` every object number, so the next
+allocated id is free -/
+theorem fresh_after_run (ops : List Op) (d : Doc) (h : WF d) (d' : Doc) (hr : runOps d ops = .ok d') :
+    d'.objects.get (d'.maxId + 1, 0) = none :=
+  fresh_id d' (wf_run ops d h d' hr).1
 
-example : Inv ⟨[], [((3, 0), .null)], 5, [], []⟩ := by
+example : WF ⟨[], [((3, 0), .null)], 5, [], []⟩ := by
+  refine ⟨?_, by simp [Objects.Sorted, Objects.keys]⟩
   intro k hk
   by_cases e : k = (3, 0)
   · subst e; decide
   · simp [Objects.get, Ne.symm e] at hk
-
-/-- **F-C11-b (counter-witness).** `set_object` above `max_id` breaks the invariant and the next
-`add_object` overwrites the object: max_id 5, set (6,0) := 1, add 2 returns (6,0) and (6,0) now holds 2. -/
-theorem set_above_max_witness :
-    ∃ d1 d2, step ⟨[], [((5, 0), .null)], 5, [], []⟩ (.set (6, 0) (.int 1)) = .ok (d1, .unit) ∧
-      ¬ Inv d1 ∧ step d1 (.add (.int 2)) = .ok (d2, .id (6, 0)) ∧
-      (d1.objects.get (6, 0)).bind Obj.asInt = some 1 ∧ (d2.objects.get (6, 0)).bind Obj.asInt = some 2 := by
-  refine ⟨_, _, rfl, ?_, rfl, by decide, by decide⟩
-  intro h
-  have := h (6, 0) (by decide)
-  simp at this
 
 /-- traversing with the empty action changes nothing -/
 theorem deep_id :
@@ -247,5 +211,172 @@ theorem delete_leaves_trailer_ref_witness (os : Objects) :
     (deleteObject ⟨[([73], .ref 5 0)], os, 9, [], []⟩ (5, 0)).1.trailer = [([73], .ref 5 0)] := by
   rw [(delete_effect _ _).2.1]
   rw [deepDict, deepObj_other] <;> simp [delAct, delFn, deepDict]
+
+
+
+/-! ### resources and content -/
+
+theorem Dict.get_set (d : Dict) (k : Bytes) (v : Obj) (q : Bytes) :
+    Dict.get (Dict.set d k v) q = if k = q then some v else Dict.get d q := by
+  induction d with
+  | nil => simp [Dict.set, Dict.get]
+  | cons p rest ih =>
+    obtain ⟨k0, v0⟩ := p
+    simp only [Dict.set]
+    by_cases h1 : k0 = k
+    · subst h1; simp only [if_true, Dict.get]
+      by_cases h3 : k0 = q <;> simp [h3]
+    · simp only [h1, if_false, Dict.get, ih]
+      by_cases h3 : k0 = q
+      · subst h3; simp [Ne.symm h1]
+      · simp [h3]
+
+theorem readLoc_writeLoc (os : Objects) (loc : ResLoc) (o v : Obj) (h : readLoc os loc = some o) :
+    readLoc (writeLoc os loc v) loc = some v := by
+  cases loc with
+  | obj id =>
+    simp only [readLoc, writeLoc, Objects.get_set] at *
+    simp [h]
+  | entry t =>
+    simp only [readLoc] at h
+    split at h
+    · rename_i pd hg
+      simp only [writeLoc, hg, readLoc, Objects.get_set]
+      simp [Dict.get_set]
+    · cases h
+
+/-- adding `name ↦ v` to the sub-dictionary `sub` of category `cat`: every other category and every other
+name of that category is exactly as before -/
+theorem withEntry_monotone (res sub : Dict) (cat name : Bytes) (v : Obj) :
+    (∀ c, c ≠ cat → Dict.get (Dict.set res cat (.dict (Dict.set sub name v))) c = Dict.get res c) ∧
+    Dict.get (Dict.set res cat (.dict (Dict.set sub name v))) cat = some (.dict (Dict.set sub name v)) ∧
+    (∀ n, n ≠ name → Dict.get (Dict.set sub name v) n = Dict.get sub n) ∧
+    Dict.get (Dict.set sub name v) name = some v := by
+  refine ⟨?_, by simp [Dict.get_set], ?_, by simp [Dict.get_set]⟩
+  · intro c hc; simp [Dict.get_set, Ne.symm hc]
+  · intro n hn; simp [Dict.get_set, Ne.symm hn]
+
+/-- **C11, resources_monotone (partial: the resource dictionary the call works on).** If
+`get_or_create_resources` locates a resource dictionary `res` for the page, then after
+`add_graphics_state` the dictionary at that location keeps every category other than `ExtGState`
+unchanged, and an existing `ExtGState` sub-dictionary keeps every name other than the new one. -/
+theorem addGraphicsState_monotone_partial (d : Doc) (pg : ObjId) (name : Bytes) (gid : ObjId) (d1 : Doc) (loc : ResLoc)
+    (res : Dict) (hg : getOrCreateResources d pg = some (d1, loc)) (hr : readLoc d1.objects loc = some (.dict res)) :
+    ∃ res', readLoc (addGraphicsState d pg name gid).1.objects loc = some (.dict res') ∧
+      (∀ c, c ≠ kExtGState → Dict.get res' c = Dict.get res c) ∧
+      (∀ sd, Dict.get res kExtGState = some (.dict sd) →
+        ∃ sd', Dict.get res' kExtGState = some (.dict sd') ∧ ∀ n, n ≠ name → Dict.get sd' n = Dict.get sd n) := by
+  unfold addGraphicsState
+  simp only [hg, hr]
+  by_cases hh : Dict.has res kExtGState = true
+  · simp only [hh, if_true]
+    cases hge : Dict.get res kExtGState with
+    | none => simp [Dict.has, hge] at hh
+    | some v =>
+      cases v with
+      | dict sd =>
+        simp only
+        refine ⟨_, readLoc_writeLoc _ _ _ _ hr, ?_, ?_⟩
+        · exact (withEntry_monotone res sd kExtGState name _).1
+        · intro sd0 h0; cases h0
+          exact ⟨_, (withEntry_monotone res sd kExtGState name _).2.1, (withEntry_monotone res sd kExtGState name _).2.2.1⟩
+      | _ => exact ⟨res, hr, fun _ _ => rfl, fun sd h0 => by cases h0⟩
+  · have hh' : Dict.has res kExtGState = false := by simpa using hh
+    have hnone : Dict.get res kExtGState = none := by
+      simp only [Dict.has] at hh'; cases hx : Dict.get res kExtGState <;> simp_all
+    simp only [hh', Bool.false_eq_true, if_false, Dict.get_set, if_true]
+    refine ⟨_, readLoc_writeLoc _ _ _ _ hr, ?_, ?_⟩
+    · intro c hc
+      rw [(withEntry_monotone _ [] kExtGState name _).1 c hc, Dict.get_set]; simp [Ne.symm hc]
+    · intro sd h0; rw [hnone] at h0; cases h0
+
+/-- the same for `add_xobject` when the `XObject` entry is a direct dictionary or absent (when it is a
+reference the sub-dictionary lives in another object and `res` itself is not written) -/
+theorem addXObject_monotone_partial (d : Doc) (pg : ObjId) (name : Bytes) (xid : ObjId) (d1 : Doc) (loc : ResLoc)
+    (res : Dict) (hg : getOrCreateResources d pg = some (d1, loc)) (hr : readLoc d1.objects loc = some (.dict res))
+    (hnr : ∀ n g, Dict.get res kXObject ≠ some (.ref n g)) :
+    ∃ res', readLoc (addXObject d pg name xid).1.objects loc = some (.dict res') ∧
+      (∀ c, c ≠ kXObject → Dict.get res' c = Dict.get res c) ∧
+      (∀ sd, Dict.get res kXObject = some (.dict sd) →
+        ∃ sd', Dict.get res' kXObject = some (.dict sd') ∧ ∀ n, n ≠ name → Dict.get sd' n = Dict.get sd n) := by
+  unfold addXObject
+  simp only [hg, hr]
+  by_cases hh : Dict.has res kXObject = true
+  · simp only [hh, if_true]
+    cases hge : Dict.get res kXObject with
+    | none => simp [Dict.has, hge] at hh
+    | some v =>
+      cases v with
+      | dict sd =>
+        simp only
+        refine ⟨_, readLoc_writeLoc _ _ _ _ hr, ?_, ?_⟩
+        · exact (withEntry_monotone res sd kXObject name _).1
+        · intro sd0 h0; cases h0
+          exact ⟨_, (withEntry_monotone res sd kXObject name _).2.1, (withEntry_monotone res sd kXObject name _).2.2.1⟩
+      | ref n g => exact absurd hge (hnr n g)
+      | _ => exact ⟨res, hr, fun _ _ => rfl, fun sd h0 => by cases h0⟩
+  · have hh' : Dict.has res kXObject = false := by simpa using hh
+    have hnone : Dict.get res kXObject = none := by
+      simp only [Dict.has] at hh'; cases hx : Dict.get res kXObject <;> simp_all
+    simp only [hh', Bool.false_eq_true, if_false, Dict.get_set, if_true]
+    refine ⟨_, readLoc_writeLoc _ _ _ _ hr, ?_, ?_⟩
+    · intro c hc
+      rw [(withEntry_monotone _ [] kXObject name _).1 c hc, Dict.get_set]; simp [Ne.symm hc]
+    · intro sd h0; rw [hnone] at h0; cases h0
+
+/-- **F-C11-e (counter-witness).** Page 2 has no own `Resources` and inherits `/Font /F1` from its parent 3.
+`add_xobject` gives the page an own `Resources` whose only key is `XObject`: the dictionary in effect for
+the page (the nearest one up the Parent chain) no longer contains `Font`. -/
+def wres : Doc :=
+  { trailer := [], maxId := 5, bookmarks := [], bmTable := [],
+    objects := [((2,0), .dict [(TYPE, .name PAGE), (PARENT, .ref 3 0)]),
+                ((3,0), .dict [(TYPE, .name PAGES), (KIDS, .arr [.ref 2 0]),
+                               (kResources, .dict [([70,111,110,116], .dict [([70,49], .ref 5 0)])])]),
+                ((5,0), .dict [])] }
+
+theorem inherited_shadowed_witness :
+    ((wres.objects.get (2,0)).bind Obj.asDict).bind (fun pd => Dict.get pd kResources) = none ∧
+    ((((addXObject wres (2,0) [73,109,49] (5,0)).1.objects.get (2,0)).bind Obj.asDict).bind
+        (fun pd => (Dict.get pd kResources).bind Obj.asDict)).map Dict.keys = some [kXObject] := by
+  constructor <;> decide
+
+/-- decoding of a stream as `get_page_content` needs it here: no filter, or FlateDecode through the codec -/
+def decodeStream (inflate : Bytes → Option Bytes) : Obj → Option Bytes
+  | .stream dict content =>
+    match Dict.get dict kFilter with
+    | none => some content
+    | some (.name n) => if n = kFlateDecode then inflate content else none
+    | some _ => none
+  | _ => none
+
+/-- **C11, content edits.** With a codec satisfying `inflate (deflate x) = x`, the stream that
+`change_content_stream` stores (plain, or FlateDecode when that saves more than the margin) decodes to the
+new content, and its `Length` is the stored length. `hplain` is the one fact about the dictionary that is
+used: after `set_plain_content` no `Filter` key is left (true of every `IndexMap`, i.e. duplicate-free, dictionary). -/
+theorem change_content_decodes (inflate : Bytes → Option Bytes) (deflate : Bytes → Bytes)
+    (hcodec : ∀ x, inflate (deflate x) = some x) (dict : Dict) (c : Bytes)
+    (hplain : Dict.get (Dict.remove (Dict.remove dict kDecodeParms) kFilter) kFilter = none) :
+    decodeStream inflate (plainThenCompress (deflate c) dict c) = some c := by
+  unfold plainThenCompress
+  simp only
+  split
+  · simp only [decodeStream, Dict.get_set]
+    have h1 : ¬ (LENGTHE = kFilter) := by decide
+    simp [h1, hcodec]
+  · simp only [decodeStream, Dict.get_set]
+    have h1 : ¬ (LENGTHE = kFilter) := by decide
+    simp [h1, hplain]
+
+theorem change_content_length (deflated : Bytes) (dict : Dict) (c : Bytes) :
+    ∃ d' content', plainThenCompress deflated dict c = .stream d' content' ∧
+      Dict.get d' LENGTHE = some (.int content'.length) := by
+  unfold plainThenCompress
+  simp only
+  split
+  · exact ⟨_, _, rfl, by simp [Dict.get_set]⟩
+  · exact ⟨_, _, rfl, by simp [Dict.get_set]⟩
+
+example : Dict.get (Dict.remove (Dict.remove [(kFilter, .name [65]), (LENGTHE, .int 3), (kDecodeParms, .null)] kDecodeParms) kFilter) kFilter = none := by
+  decide
 
 end Lopdf
